@@ -1,76 +1,172 @@
 ------------------------------ MODULE Sharding ------------------------------
 (***************************************************************************)
 (* Trace ownership in a stably configured cluster (property C17):          *)
-(* sharder/deterministic.go WhichShard + the forwarding branch of          *)
-(* route/route.go processEvent on both listeners.                          *)
+(* sharder/deterministic.go loadPeerList + WhichShard and the forwarding   *)
+(* branch of route/route.go processEvent on both listeners.                *)
 (*                                                                         *)
-(* Every node of the peer set S sees the same SET of addresses, each in    *)
-(* its own order (Views).  The owner of a trace is an uninterpreted        *)
-(* function of the set (the hash is not modelled): what the model fixes is *)
-(* that it depends on the set only, lies in the set, and that a span       *)
-(* entering any node reaches the owner's collector after at most one       *)
-(* forwarding hop and is never forwarded to the node it is already on.     *)
+(* A node's peer source (internal/peer: FilePeers, RedisPubsubPeers) hands *)
+(* it a LIST of addresses and calls it back whenever the list changes.     *)
+(* Such a list is a MULTISET: it may name one address more than once       *)
+(* (Redis: one entry per instance id, so a peer that restarted on its old  *)
+(* address is listed twice until the old entry expires; file: the node's   *)
+(* own address is appended to the configured list), it may name addresses  *)
+(* of peers that are gone, and it arrives in any order.  Every node has    *)
+(* its own membership history: the list it started on (Start) and the      *)
+(* lists it was handed afterwards (Learn).                                 *)
+(*                                                                         *)
+(* The model of the real algorithm: a node's partition table is built from *)
+(* the list it currently sees, and from nothing else (built[n] = cur[n]).  *)
+(* Ownership is an uninterpreted function of the table (the hash is not    *)
+(* modelled): some address of the table's list, fixed the first time it is *)
+(* needed.  What the property promises: nodes that see the same list (in   *)
+(* any order) name the same owner and the owner is on the list, whatever   *)
+(* lists they saw before; once every node of the live set S sees the same  *)
+(* list M naming exactly S, a span entering any node reaches the owner's   *)
+(* collector after at most one forwarding hop and is never forwarded to    *)
+(* the node it is already on.                                              *)
+(*                                                                         *)
+(* The nodes' sharders share no state, so the membership phase is played   *)
+(* one node at a time (in address order): the next node starts when the    *)
+(* previous one has settled on M.  Spans are routed once all have.         *)
 (***************************************************************************)
 EXTENDS Integers, Sequences, FiniteSets, TLC, Json
 
-CONSTANTS Addrs,      \* universe of peer addresses (strings)
-          Histories,  \* membership histories a node may have: subset of {"fresh", "grew", "shrank"}
-          Traces,     \* trace ids (strings)
-          MaxSends
+CONSTANTS AddrSeq,   \* the universe of peer addresses (strings), as a sequence in sorted order
+          Live,      \* the addresses that may be live nodes; the others only ever appear as stale list entries
+          MaxMult,   \* a live address may be listed up to MaxMult times (a stale one once)
+          MaxDup,    \* at most MaxDup surplus entries per list
+          Views,     \* orders in which a list may be handed over: subset of {"sorted", "reversed", "rotated"}
+          Traces,    \* trace ids (strings)
+          MaxSends,
+          Rebuild    \* "always": the real algorithm.  "onSetChange" / "onLengthChange": tables that survive a list change
+                     \* the detector does not see; never used for the graph, only to check that the invariants bite
 
-VARIABLES S,        \* the peer set of this run
-          view,     \* [node -> how that node's peer list is permuted: "sorted" | "reversed" | "rotated"]
-          hist,     \* [node -> "fresh" (started on S) | "grew" (started alone, then learned S) | "shrank" (started on all of Addrs, then learned S)]
+\* universes for the cfgs (a cfg cannot spell a sequence): AddrSeq <- Universe3 / Universe4
+Universe3 == <<"a:1", "b:1", "c:1">>
+Universe4 == <<"a:1", "b:1", "c:1", "d:1">>
+
+U == {AddrSeq[i] : i \in 1..Len(AddrSeq)}
+Pos(a) == CHOOSE i \in 1..Len(AddrSeq) : AddrSeq[i] = a
+RECURSIVE SumTo(_, _)
+SumTo(m, i) == IF i = 0 THEN 0 ELSE m[AddrSeq[i]] + SumTo(m, i - 1)
+Size(m) == SumTo(m, Len(AddrSeq))
+Supp(m) == {a \in U : m[a] > 0}
+Empty == [a \in U |-> 0]                                  \* "not started yet"
+\* the peer lists of the model: multisets of addresses, as [address -> multiplicity]
+MSets == {m \in [U -> 0..MaxMult] : /\ Size(m) >= 1
+                                    /\ Size(m) - Cardinality(Supp(m)) <= MaxDup
+                                    /\ \A a \in U \ Live : m[a] <= 1}
+ListsFor(n) == {m \in MSets : m[n] > 0}                   \* both peer sources always list the node itself
+
+ASSUME PrintT(ToJson([params |-> [universe |-> AddrSeq]]))
+
+VARIABLES S,        \* the live set of this run
+          M,        \* the list of the stably configured cluster: Supp(M) = S
+          cur,      \* [node -> the list its peer source currently returns]  (Empty: not started)
+          built,    \* [node -> the list its partition table was built from]
           landed,   \* [trace -> set of nodes whose collector received a span of it]
           count,    \* [trace -> spans collected]
           hops,     \* maximum forwarding hops seen
           selfFwd,  \* forwards addressed to the forwarding node itself
           outside,  \* deliveries to an address outside S
           sends,
-          own,      \* [trace -> owner, or "" while no span of it has been routed yet]  (the hash, resolved lazily)
+          own,      \* the hash, resolved lazily: set of [tab, t, o] - a table built from list tab gives trace t to o
           act
 
-vars == <<S, view, hist, landed, count, hops, selfFwd, outside, sends, own, act>>
-Views == {"sorted", "reversed", "rotated"}
+vars == <<S, M, cur, built, landed, count, hops, selfFwd, outside, sends, own, act>>
 
-\* uninterpreted ownership: some member of the set, fixed the first time the trace is routed
-\* (whichever node routes it first: all nodes compute the same function of the same set)
+Started == {n \in S : cur[n] # Empty}
+Settled == \A n \in Started : cur[n] = M
+\* the stably configured cluster of the property: every node is up and sees the same list, which names exactly the live nodes
+Stable == Started = S /\ \A n, m \in S : cur[n] = cur[m] /\ Supp(cur[n]) = S
+NextNode == CHOOSE n \in S \ Started : \A m \in S \ Started : Pos(n) <= Pos(m)
+LastNode == CHOOSE n \in Started : \A m \in Started : Pos(m) <= Pos(n)
 
-Init == /\ S \in (SUBSET Addrs) \ {{}}
-        /\ view \in [S -> Views]
-        \* ownership must be a function of the CURRENT list only, whatever lists a node saw before
-        /\ hist \in [S -> Histories]
+Init == /\ S \in (SUBSET Live) \ {{}}
+        /\ M \in {m \in MSets : Supp(m) = S}
+        /\ cur = [n \in S |-> Empty]
+        /\ built = [n \in S |-> Empty]
         /\ landed = [t \in Traces |-> {}]
         /\ count = [t \in Traces |-> 0]
         /\ hops = 0 /\ selfFwd = 0 /\ outside = 0 /\ sends = 0
-        /\ own = [t \in Traces |-> ""]
+        /\ own = {}
         /\ act = [name |-> "Init"]
+
+\* loadPeerList: what the table of a node is built from after it was handed list m
+Table(old, m) ==
+  CASE Rebuild = "always" -> m
+    [] Rebuild = "onSetChange" -> IF old # Empty /\ Supp(old) = Supp(m) THEN old ELSE m
+    [] Rebuild = "onLengthChange" -> IF old # Empty /\ Size(old) = Size(m) THEN old ELSE m
+
+\* node n's peer source returns list m, in order v: at start-up (Start) or through the change callback (Learn)
+Deliver(n, m, v) ==
+  /\ sends = 0
+  /\ m[n] > 0                     \* m \in ListsFor(n)
+  /\ \/ /\ Started # S /\ Settled /\ n = NextNode
+        /\ act' = [name |-> "Start", n |-> n, list |-> m, view |-> v]
+     \/ /\ Started # {} /\ n = LastNode
+        /\ act' = [name |-> "Learn", n |-> n, list |-> m, view |-> v]
+  /\ cur' = [cur EXCEPT ![n] = m]
+  /\ built' = [built EXCEPT ![n] = Table(@, m)]
+  /\ UNCHANGED <<S, M, landed, count, hops, selfFwd, outside, sends, own>>
+
+\* where a span of trace t ends up when it is at node `at` after h hops, every node routing by its own table
+\* (f: the owner each table names for t); the harness carries a forwarded span for at most 4 hops
+RECURSIVE Path(_, _, _)
+Path(f, at, h) ==
+  LET o == f[built[at]] IN
+  IF o = at THEN [land |-> {at}, hops |-> h, out |-> 0]
+  ELSE IF o \notin S THEN [land |-> {}, hops |-> h + 1, out |-> 1]
+  ELSE IF h + 1 >= 4 THEN [land |-> {}, hops |-> h + 1, out |-> 0]
+  ELSE Path(f, o, h + 1)
 
 \* a span of trace t enters node n on its incoming listener
 Send(n, t) ==
+  /\ Stable
   /\ sends < MaxSends
   /\ sends' = sends + 1
-  /\ \E o \in (IF own[t] = "" THEN S ELSE {own[t]}) :
-     /\ own' = [own EXCEPT ![t] = o]
-     /\ landed' = [landed EXCEPT ![t] = @ \cup {o}]
-     /\ count' = [count EXCEPT ![t] = @ + 1]
-     /\ hops' = IF o = n THEN hops ELSE (IF hops < 1 THEN 1 ELSE hops)
+  /\ LET Tb == {built[k] : k \in S} IN
+     \E f \in [Tb -> U] :
+       /\ \A k \in Tb : f[k] \in Supp(k)
+       /\ \A r \in own : (r.t = t /\ r.tab \in Tb) => f[r.tab] = r.o
+       /\ own' = own \cup {[tab |-> k, t |-> t, o |-> f[k]] : k \in Tb}
+       /\ LET p == Path(f, n, 0) IN
+          /\ landed' = [landed EXCEPT ![t] = @ \cup p.land]
+          /\ count' = [count EXCEPT ![t] = @ + Cardinality(p.land)]
+          /\ hops' = IF p.hops > hops THEN p.hops ELSE hops
+          /\ outside' = outside + p.out
   /\ act' = [name |-> "Send", n |-> n, t |-> t]
-  /\ UNCHANGED <<S, view, hist, selfFwd, outside>>
+  /\ UNCHANGED <<S, M, cur, built, selfFwd>>
 
-Next == \E n \in S, t \in Traces : Send(n, t)
+Next == \/ \E n \in S, m \in MSets, v \in Views : Deliver(n, m, v)
+        \/ \E n \in S, t \in Traces : Send(n, t)
 Spec == Init /\ [][Next]_vars
 
-\* C17
+TypeOK == /\ S \subseteq Live /\ M \in MSets /\ Supp(M) = S
+          /\ cur \in [S -> MSets \cup {Empty}] /\ built \in [S -> MSets \cup {Empty}]
+          /\ sends \in 0..MaxSends
+
+\* C17 --------------------------------------------------------------------
+\* ownership is a function of the list a node sees NOW: its table is the one a node started on that list builds
+Stale == {n \in Started : built[n] # cur[n]}
+TableIsCurrent == Stale = {}
+\* ... hence nodes that see the same list name the same owner, whatever they saw before, and the owner is on the list
+SameListSameOwner == \A n, m \in Started : cur[n] = cur[m] => built[n] = built[m]
+OwnerListed == /\ \A n \in Started : Supp(built[n]) \subseteq Supp(cur[n])
+               /\ \A r \in own : r.o \in Supp(r.tab)
 OneOwner == \A t \in Traces : Cardinality(landed[t]) <= 1 /\ landed[t] \subseteq S
 AtMostOneHop == hops <= 1
 NoSelfForward == selfFwd = 0 /\ outside = 0
 
-\* what the harness can observe without knowing the hash: how many distinct nodes hold each trace
-Abs == [ landedCount |-> [t \in Traces |-> Cardinality(landed[t])],
-         count |-> count, hops |-> hops, selfFwd |-> selfFwd, outside |-> outside,
-         agree |-> TRUE ]     \* agree: every node's sharder names the same owner for every probe trace id, and it is in S
-Hid == [ S |-> S, view |-> view, hist |-> hist, sends |-> sends, own |-> own ]
+\* what the harness can observe without knowing the hash
+Abs == [ cur |-> cur,                   \* what each node's Peers.GetPeers() returns, as multiplicities
+         stable |-> Stable,
+         staleSet |-> Stale,            \* nodes whose sharder names, for some probe trace id, another owner than a sharder started on the node's current list
+         strayedSet |-> {n \in Started : ~(Supp(built[n]) \subseteq Supp(cur[n]))},   \* nodes naming an owner that is not on their current list
+         agree |-> SameListSameOwner,   \* nodes with the same current list name the same owner for every probe trace id
+         landedCount |-> [t \in Traces |-> Cardinality(landed[t])],
+         count |-> count, hops |-> hops, selfFwd |-> selfFwd, outside |-> outside ]
+Hid == [ S |-> S, M |-> M, built |-> built, sends |-> sends, own |-> own ]
 Dump == PrintT(ToJson([fa |-> act.name, act |-> act', fabs |-> Abs, fhid |-> Hid, tabs |-> Abs', thid |-> Hid']))
-View == <<S, view, hist, landed, count, hops, selfFwd, outside, sends, own>>
+View == <<S, M, cur, built, landed, count, hops, selfFwd, outside, sends, own>>
 =============================================================================
